@@ -386,7 +386,78 @@ func (c *Ctx) combLoop(n int, maxLeaves int, leafGen func() *Node, opt ObjOpts, 
 		if c.R.Chance(1, 12) {
 			k = maxLeaves + c.R.Intn(maxLeaves)
 		}
-		root := genTree(c.R, k, 4, leafGen)
+		gen := leafGen
+		if c.R.Chance(1, 10) {
+			// a rule about ONE attribute: every comparison on the same path with the same kind of literal - the same
+			// literal again, another spelling of it, a near miss - mostly `eq`: `p eq "s" or p eq "ſ"`, `x eq 1 and x ne 1.0`
+			var first *Node
+			for tries := 0; tries < 20 && (first == nil || first.T != NCmp); tries++ {
+				first = leafGen()
+			}
+			if first != nil && first.T == NCmp {
+				c.count("rule_about_one_attribute")
+				if k > 5 {
+					k = 2 + c.R.Intn(4)
+				}
+				cnt := 0
+				gen = func() *Node {
+					cnt++
+					if cnt == 1 {
+						return first
+					}
+					n := &Node{T: NCmp, Path: append([]string(nil), first.Path...), Op: first.Op, Lit: relatedLit(c.R, first.Lit)}
+					switch c.R.Intn(10) {
+					case 0, 1:
+						n.Op = map[int]int{13: 14, 14: 13, 15: 18, 18: 15, 16: 17, 17: 16}[first.Op]
+						if n.Op == 0 {
+							n.Op = first.Op
+						}
+					case 2:
+						n.Op = 13 + c.R.Intn(6)
+					case 3, 4, 5:
+						n.Op = 13
+					}
+					if strings.HasSuffix(n.Lit.Kind, "list") {
+						n.Op = 12
+					} else if n.Op == 12 {
+						n.Op = 13
+					}
+					return n
+				}
+			}
+		}
+		root := genTree(c.R, k, 4, gen)
+		if c.R.Chance(1, 20) {
+			// alternatives: a FLAT chain `p eq l1 or p eq l2 or …` (or with `and`, now and then another operator) on one
+			// attribute, half of the time with string literals whose letters have case-folding relatives
+			first := leafGen()
+			for tries := 0; tries < 20 && first.T != NCmp; tries++ {
+				first = leafGen()
+			}
+			if first.T == NCmp {
+				c.count("flat_alternatives_on_one_attribute")
+				first.Op = 13
+				if c.R.Chance(1, 2) {
+					first.Lit = Lit{Kind: "str", Text: quote(pick(c.R, []string{"s", "mass", "kelvin", "σ", "istanbul", "μm", "straße", "SET", "k", "i", "οδος", "åre"}))}
+				}
+				or := c.R.Chance(7, 10)
+				var acc *Node = first
+				for j := 1 + c.R.Intn(4); j > 0; j-- {
+					n := &Node{T: NCmp, Path: append([]string(nil), first.Path...), Op: 13, Lit: relatedLit(c.R, first.Lit)}
+					if c.R.Chance(1, 10) {
+						n.Op = 14
+					}
+					if strings.HasSuffix(n.Lit.Kind, "list") {
+						n.Op = 12
+					}
+					acc = &Node{T: NLogic, Or: or, L: acc, R: n}
+				}
+				if first.Lit.Kind == "ilist" || first.Lit.Kind == "dlist" || first.Lit.Kind == "slist" {
+					first.Op = 12
+				}
+				root = acc
+			}
+		}
 		obj := genObject(c.R, root, opt)
 		batch = append(batch, c.mkComb(root, obj, c.R.Chance(1, 3)))
 		if len(batch) >= 200 {
